@@ -25,8 +25,9 @@ class AnsiFormatter(Formatter):
         for tag, style in style_set.styles.items():
             pastel_style = StyleConverter.convert(style)
 
+            # Tags are matched in lower case
             self._formatter.add_style(
-                tag,
+                tag.lower() if tag else tag,
                 pastel_style.foreground,
                 pastel_style.background,
                 pastel_style.options,
@@ -60,8 +61,9 @@ class AnsiFormatter(Formatter):
     def add_style(self, style):  # type: (Style) -> None
         pastel_style = StyleConverter.convert(style)
 
+        # Tags are matched in lower case
         self._formatter.add_style(
-            style.tag,
+            style.tag.lower() if style.tag else style.tag,
             pastel_style.foreground,
             pastel_style.background,
             pastel_style.options,
